@@ -1,14 +1,18 @@
 #!/bin/sh
-# usage: tools/try_seed.sh <seed dir with patch.diff> <Cxx> [tier]
-# applies the patch to /repo, runs the check, reverts. Prints summary lines.
+# usage: tools/try_seed.sh <ABSOLUTE seed dir with patch.diff> <Cxx> [tier]
+# applies the patch to a scratch worktree of /repo (never to /repo itself, so
+# that other checks may run meanwhile), runs the check against it with
+# VERIF_REPO, removes the worktree.  The evidence file is saved and restored.
 SEED="$1"; PID="$2"; TIER="${3:-quick}"
 cd /verif || exit 2
-git -C /repo diff --quiet || { echo "repo dirty"; exit 2; }
-git -C /repo apply "$SEED/patch.diff" 2>/dev/null || git -C /repo apply --3way "$SEED/patch.diff" 2>/dev/null || { git -C /repo checkout -- . ; git -C /repo reset -q; echo "patch does not apply"; exit 2; }
-cp "evidence/$PID.json" "/tmp/evidence_$PID.keep" 2>/dev/null
-bin/check "$PID" "$TIER" > "/tmp/try_${PID}.out" 2>&1
+WT="/tmp/tryseed_wt_$$"
+git -C /repo worktree add --detach "$WT" HEAD -q || exit 2
+git -C "$WT" apply "$SEED/patch.diff" 2>/dev/null || git -C "$WT" apply --3way "$SEED/patch.diff" 2>/dev/null || { git -C /repo worktree remove --force "$WT"; echo "patch does not apply"; exit 2; }
+cp "evidence/$PID.json" "/tmp/evidence_$PID.keep.$$" 2>/dev/null
+VERIF_REPO="$WT" bin/check "$PID" "$TIER" > "/tmp/try_${PID}_$$.out" 2>&1
 RC=$?
-[ -f "/tmp/evidence_$PID.keep" ] && mv "/tmp/evidence_$PID.keep" "evidence/$PID.json"
-git -C /repo reset -q; git -C /repo checkout -- .
-grep -E "^--- $PID|^VIOLATION|^KNOWN|^$PID " "/tmp/try_${PID}.out" | head -12
+[ -f "/tmp/evidence_$PID.keep.$$" ] && mv "/tmp/evidence_$PID.keep.$$" "evidence/$PID.json"
+git -C /repo worktree remove --force "$WT"
+grep -E "^--- $PID|^VIOLATION|^KNOWN|^$PID " "/tmp/try_${PID}_$$.out" | head -12
+rm -f "/tmp/try_${PID}_$$.out"
 echo "exit=$RC"
